@@ -262,8 +262,9 @@ def check_mh(pid, tier, replay=None):
     chk = vlib.Check(pid, tier)
     for name, detail in vlib.lean_obligations(chk, module, thms, extra_targets=["isal_model"]):
         chk.violation("Lean obligation no longer checks: %s" % name, {"kind": "obligation", "obligation": name, "detail": detail}, no_input=True)
-    if pid == "C05" and not replay:
-        # T-route: every instance of the mh_sha1 / mh_sha256 update template, regenerated from the source and re-proved
+    if not replay:
+        # T-route: every instance of the mh_sha1 / mh_sha256 update template and of the tail function (the tail is shared with
+        # the stitched murmur finalize of C10), regenerated from the source and re-proved
         mhupdcheck.obligations(chk, tier)
     drv = vlib.harness_bin("drv_mh")
     fams = ["base", "sse", "avx", "avx2", "avx512", "pub"]
